@@ -68,7 +68,8 @@ def apply_edit(root, m):
 
 
 def run_check(root, prop, tier="quick", configs=None):
-    env = dict(os.environ, VERIF_REPO=root, VERIF_TARGET_BASE=os.path.join(root, "target"))
+    env = dict(os.environ, VERIF_REPO=root, VERIF_TARGET_BASE=os.path.join(root, "target"),
+               VERIF_FACTS_BASE=os.path.join(root, "facts"))
     if configs:
         env["VERIF_CONFIGS"] = ",".join(configs)
     r = subprocess.run([os.path.join(VERIF, "check"), prop, tier], cwd=VERIF, env=env, capture_output=True, text=True)
